@@ -19,6 +19,15 @@ CLAIMED = {
             'Trusts the compat shim, the stub HTTP/FTP clients and the stub URL table; regex semantics delegated to re; pools are finite; '
             'known finding D13 (FTP helper listings) is excluded from the general harness and isolated in its own.',
             'DESIGN.md 3/C02', 'symbolic ints/bools unbounded, pool indices enumerated by the solver'),
+    'C11': ('other',
+            'Bounded symbolic verification of totality: URLInfo.parse + every documented accessor, parse_url_or_log and urljoin_safe are '
+            'executed symbolically; any exception other than ValueError from parse, and any exception at all from the accessors, the '
+            'logging variant or the safe join, is a counterexample. Exhaustive over pools of hostile components (bracket/colon soup, huge '
+            'ports, lone surrogates, IDN, over-long labels) and over all strings of <=2 (thorough <=3) characters from a 20-character '
+            'delimiter pool at 10 URL positions; free symbolic strings (every code point) as time-capped hunts.',
+            'Pools are finite; free-text harnesses are hunts unless evidence says CONFIRMED; idna/punycode codecs run untraced (stdlib); '
+            'non-termination is only bounded by the per-path timeout.',
+            'DESIGN.md 3/C11', 'pool indices enumerated by the solver; free str up to 2-4 characters'),
 }
 
 NOT_APPLICABLE = {
@@ -28,7 +37,7 @@ NOT_APPLICABLE = {
 }
 
 PENDING = {k: 'claimed in DESIGN.md 3 but its check is not built yet at this commit' for k in
-           'C04 C05 C06 C07 C08 C09 C10 C11 C12 C13 C15 C16 C17 C18 C19 C20'.split()}
+           'C04 C05 C06 C07 C08 C09 C10 C12 C13 C15 C16 C17 C18 C19 C20'.split()}
 
 
 def main():
